@@ -11,7 +11,7 @@ use tree_sitter::{ParseOptions, Parser, Point, Range, Tree};
 pub fn meta(tier: &str) -> CheckMeta {
     CheckMeta {
         id: "C09", level: "model_checking",
-        rule: "E-box/E-sched over environment answers, reference = whole-buffer parse by a fresh parser. (i) chunkings: every one of the 2^(n-1) split sets for documents <= 12 (thorough 14) bytes, and for documents <= 4 (thorough 7) bytes every split set crossed with every list of <= 2 included ranges over all byte positions (reference = whole-buffer parse with the same ranges), every single and pair of split points up to 40 (thorough 64) bytes, fixed chunk sizes 1..8 on big documents (splits inside multi-byte characters included; a request at a character start always yields the whole character, which is what the runtime's re-request mechanism requires); (ii) UTF-16LE/BE vs UTF-8 under the code-unit offset map, crossed with unit chunkings (also between surrogates); (iii) BFS depth 3 over prior parser histories {parse other doc, other language, ranges set+cleared, cancelled parse + reset, logger on, logger off}; (iv) cancellation at every progress-callback index (deviation 1) and every pair (deviation 2) followed by resume, and cancel + reset + other document, for fresh parses and for re-parses with an edited old tree. Non-trivial = run whose environment answers actually deviated (>=1 split inside the text / >=1 cancellation / non-empty history).",
+        rule: "E-box/E-sched over environment answers, reference = whole-buffer parse by a fresh parser. (i) chunkings: every one of the 2^(n-1) split sets for documents <= 12 (thorough 14) bytes, and for documents <= 4 (thorough 7) bytes every split set crossed with every list of <= 2 included ranges over all byte positions (reference = whole-buffer parse with the same ranges), every single and pair of split points up to 40 (thorough 64) bytes, fixed chunk sizes 1..8 on big documents (splits inside multi-byte characters included; a request at a character start always yields the whole character, which is what the runtime's re-request mechanism requires); (ii) UTF-16LE/BE vs UTF-8 under the code-unit offset map, crossed with unit chunkings (also between surrogates); (iii) BFS depth 3 over prior parser histories {parse other doc, other language, ranges set+cleared, cancelled parse + reset, logger on, logger off}; (iv) cancellation at every progress-callback index (deviation 1) and every pair (deviation 2) followed by resume, and cancel + reset + other document, for fresh parses and for re-parses with an edited old tree. UTF-16 also as raw bytes through the C read callback, windows of 4..9 bytes, against the whole-buffer parse. Non-trivial = run whose environment answers actually deviated (>=1 split inside the text / >=1 cancellation / non-empty history).",
         assumptions: vec!["the progress callback fires once per 100 parser operations; cancellation points are therefore every 100th operation".into()],
         exhaustive: true,
         bounds: json!({"tier": tier, "all_chunkings_up_to_bytes": if tier == "quick" { 12 } else { 14 }, "split_pairs_up_to_bytes": if tier == "quick" { 48 } else { 64 }, "history_depth": 3, "cancel_deviations": 2}),
